@@ -126,7 +126,7 @@ def canon_obj(o):
     if isinstance(o, str):
         if o.startswith("s") and o[1:].lstrip("-").isdigit():
             return ["str", int(o[1:]), True]
-        return "junk"
+        return ["uristr", o]  # some other string (e.g. a dict key that leaked into a result)
     for cls, typ in (("track", mo.Track), ("image", mo.Image), ("ref", mo.Ref),
                      ("search", mo.SearchResult), ("playlist", mo.Playlist)):
         if type(o) is typ:
